@@ -81,7 +81,7 @@ def corpus_items():
 
 def run_det(k, seed, tier, stats):
     """(i) + (iv): collect a batch of generated programs, then compare hashes across processes."""
-    n = 40 if tier == 'quick' else 600
+    n = 100 if tier == 'quick' else 1500
     items = []
     metas = []
 
@@ -207,7 +207,7 @@ def run_shard(desc, seed, tier):
     if kind == 'det':
         run_det(k, seed, tier, stats)
         return stats
-    n = 50 if tier == 'quick' else 1500
+    n = 120 if tier == 'quick' else 2500
     feats = ALL_FEATURES - {'bigvals'}
     strat = st.tuples(programs(features=feats, ws=None if k % 2 else 2), st.integers(0, 1))
 
